@@ -14,6 +14,8 @@ ASSUME = [
     "may be started on a circuit that is still building (it waits; if the circuit fails the connection fails)",
     "SimTor acknowledges every command at once, except that the SETCONF installing the via-circuit attacher may be answered in a later step (ConfAck); attacher error reports are observed at TorState._attacher_error (wrapped on the instance)",
     "the SOCKS endpoint of a via-circuit connection is a fake whose local address the script supplies",
+    "PriorityAttacher: up to three sub-attachers with priorities 0..2, each added at most once at a time, answering immediately with "
+    "no preference / a circuit / do-not-attach; the order in which they are consulted is observed by the sub-attachers themselves",
 ]
 
 
@@ -30,10 +32,22 @@ def rand_script(rng, n):
     tries = 0
     ended = {}
     hold = [False]
+    ps = []
+    prio_mode = rng.random() < 0.4         # scripts around the PriorityAttacher
     while len(out) < n and tries < 10 * n:
         tries += 1
         r = rng.random()
-        if hold[0] and r < 0.3:
+        if prio_mode and r < 0.22:
+            x = rng.choice(["x", "y", "z"])
+            if x in ps:
+                if rng.random() < 0.6:
+                    continue
+                ps.remove(x)
+                out.append(dict(a="RemSub", x=x))
+            else:
+                ps.append(x)
+                out.append(dict(a="AddSub", x=x, prio=rng.choice([0, 1, 2])))
+        elif hold[0] and r < 0.3:
             hold[0] = False
             for v in via.values():
                 if v["st"] == "waitconf":
@@ -53,15 +67,15 @@ def rand_script(rng, n):
                     v["st"] = "waitaddr" if to == "BUILT" else "failed"
             out.append(dict(a="CircStep", c=c, to=to))
         elif r < 0.40:
-            who = rng.choice(["A", "A", "B", "none"])
+            who = rng.choice(["P", "P", "P", "A", "B", "none"] if prio_mode else ["A", "A", "B", "none"])
             if who == "B" and att_ == "none":
                 continue
             if who == "none" and att_ == "V":
                 continue
             if who == "none":
                 att_ = "none"
-            elif who == "A" and att_ == "none":
-                att_ = "A"
+            elif who in ("A", "P") and att_ == "none":
+                att_ = who
             out.append(dict(a="SetAttacher", who=who))
         elif r < 0.75:
             free = [s for s in (1, 2, 3) if s not in seen]
@@ -74,9 +88,11 @@ def rand_script(rng, n):
                 ans, mode = rng.choice(["none", "dna", "unknown", "noncirc", "c1", "c2", "c1", "c2"]), rng.choice(["imm", "def", "coro"])
             else:
                 ans, mode = "none", "imm"
-            if any(v["st"] == "waitaddr" for v in via.values()) and False:
-                continue
             seen[s] = p
+            if att_ == "P":
+                sa = dict((x, rng.choice(["none", "none", "dna", "c1", "c2"])) for x in ("x", "y", "z"))
+                out.append(dict(a="NewStreamP", s=s, kind=kind, p=p, sa=sa))
+                continue
             if att_ == "A" and mode == "def" and kind != "exit":
                 pend.add(s)
             if att_ == "V":
@@ -105,7 +121,7 @@ def rand_script(rng, n):
         elif r < 0.92:
             ks = [k for k, v in via.items() if v["st"] == "idle"]
             cb = [c for c in cs if cs[c] in ("BUILT", "BUILDING")]
-            if not ks or not cb or att_ == "A":
+            if not ks or not cb or att_ in ("A", "P"):
                 continue
             k, c = rng.choice(ks), rng.choice(cb)
             late = att_ == "none" and rng.random() < 0.6
@@ -151,6 +167,20 @@ def directed():
                     dict(a="NewStream", s=1, kind="normal", p=4001, ans="none", mode="imm"), dict(a="StreamFailed", s=1),
                     dict(a="LateClosed", s=1), dict(a="NewStream", s=2, kind="normal", p=4002, ans="none", mode="imm"),
                     dict(a="StreamFailed", s=2), dict(a="LateClosed", s=2)])
+    # priority composition: every order of addition of three sub-attachers with distinct / equal priorities
+    import itertools
+    for order in itertools.permutations([("x", 0), ("y", 1), ("z", 2)]):
+        out.append(B + [dict(a="AddSub", x=x, prio=pr) for x, pr in order] + [dict(a="SetAttacher", who="P"),
+                   dict(a="NewStreamP", s=1, kind="normal", p=4001, sa=dict(x="none", y="c1", z="c2")),
+                   dict(a="NewStreamP", s=2, kind="normal", p=4002, sa=dict(x="none", y="none", z="none")),
+                   dict(a="RemSub", x="y"),
+                   dict(a="NewStreamP", s=3, kind="resolve", p=4003, sa=dict(x="none", y="c1", z="dna"))])
+    for prios in ((2, 1, 0), (1, 1, 0), (2, 0, 0), (0, 0, 0), (1, 2, 1)):
+        out.append(B + [dict(a="SetAttacher", who="P")] + [dict(a="AddSub", x=x, prio=pr) for x, pr in zip("xyz", prios)] + [
+                   dict(a="NewStreamP", s=1, kind="normal", p=4001, sa=dict(x="c1", y="c2", z="dna")),
+                   dict(a="RemSub", x="z"), dict(a="AddSub", x="z", prio=0),
+                   dict(a="NewStreamP", s=2, kind="normal", p=4002, sa=dict(x="none", y="c2", z="c1")),
+                   dict(a="NewStreamP", s=3, kind="exit", p=4003, sa=dict(x="c1", y="c2", z="c1"))])
     # the second connection re-uses the first one's port after it completed
     out.append(B + [dict(a="ViaConnect", k="k1", c=1, late=False), dict(a="ViaAddr", k="k1", p=4003),
                     dict(a="NewStream", s=1, kind="normal", p=4003, ans="none", mode="imm"),
@@ -163,7 +193,8 @@ def directed():
 def run(pid, tier, seed):
     rep = common.Report(pid, tier, seed)
     rep.assumptions = list(ASSUME)
-    pipeline.design_check(rep, "AttachM_MC", ["AttachM_MC_quick"] if tier == "quick" else ["AttachM_MC_quick", "AttachM_MC_thorough"],
+    pipeline.design_check(rep, "AttachM_MC", ["AttachM_MC_quick", "AttachM_MC_prio_quick"] if tier == "quick"
+                          else ["AttachM_MC_quick", "AttachM_MC_prio_quick", "AttachM_MC_thorough", "AttachM_MC_prio"],
                           timeout=200 if tier == "quick" else 1200)
     rng = random.Random(seed)
     sims = pipeline.generate(rep, "AttachM_Gen", "AttachM_Gen.cfg", 400 if tier == "quick" else 4000, 30, seed)
@@ -172,7 +203,7 @@ def run(pid, tier, seed):
     for s in scripts:
         traces.append(att.replay(s))
         acts = [e["a"] for e in s]
-        if "NewStream" in acts and ("SetAttacher" in acts or "ViaConnect" in acts):
+        if ("NewStream" in acts or "NewStreamP" in acts) and ("SetAttacher" in acts or "ViaConnect" in acts):
             seen.add(common.digest(s))
     rep.cov["evaluations"] = len(traces)
     rep.cov["distinct_nontrivial"] = len(seen)
